@@ -3,6 +3,7 @@ import ast
 import re
 
 from ..core import AnalysisError
+from .shared_py import inn
 from ..pyfront import unparse, try_const, norm_key
 from . import shared_gen as G
 
@@ -67,7 +68,7 @@ def constructor_shapes(ctx, L):
             % sorted(seen.get('isar', [])), '')
     isar = ctx.py.mod('prophyc.parsers.isar').func('make_struct_members')
     s = ws(unparse(isar.node))
-    L.check("optional = xml_elem.get('optional') optional = bool(optional) and optional.lower() == 'true'" in s, 'C17a.constructor-shape',
+    L.check(inn("optional = xml_elem.get('optional') optional = bool(optional) and optional.lower() == 'true'", s), 'C17a.constructor-shape',
             'isar|optional-is-bool', isar.site(), 'the optional flag is normalised to a bool', '')
 
 
@@ -83,7 +84,7 @@ def implicit_sizers(ctx, L):
                 'an array without an explicit sizer gets a u32 counter `num_of_<name>` emitted *before* the array and bound to it', s[-300:])
     isar = ctx.py.mod('prophyc.parsers.isar').func('make_struct_members')
     s = ws(unparse(isar.node))
-    L.check("type_ = dimension.get('variableSizeFieldType', 'u32')" in s, 'C17a.implicit-sizer', 'isar|default-type', isar.site(),
+    L.check(inn("type_ = dimension.get('variableSizeFieldType', 'u32')", s), 'C17a.implicit-sizer', 'isar|default-type', isar.site(),
             'the implicit isar counter defaults to u32 like the prophy one', '')
     i1 = s.find('yield model.StructMember(sizer_name, type_, docstring=comment)')
     i2 = s.find('yield model.StructMember(xml_elem_name, xml_elem_type, bound=sizer_name, size=size_, docstring=comment)')
@@ -95,7 +96,7 @@ def isar_forms(ctx, L):
     f = ctx.py.mod('prophyc.parsers.isar').func('make_struct_members')
     c = ctx.py.mod('prophyc.parsers.isar').func('make_struct_members.collect')
     s = ws(unparse(c.node))
-    L.check('if dimension is None: yield model.StructMember(xml_elem_name, xml_elem_type, optional=optional, docstring=comment)' in s,
+    L.check(inn('if dimension is None: yield model.StructMember(xml_elem_name, xml_elem_type, optional=optional, docstring=comment)', s),
             'C17a.isar-forms', 'no-dimension', c.site(), 'a member without <dimension> is plain or optional', '')
     # the has_ enabler for optional+dimension is emitted for *every* dimension form: it must not sit inside a form branch
     top_else = [n for n in c.node.body if isinstance(n, ast.If)]
@@ -129,7 +130,7 @@ def isar_forms(ctx, L):
     for i, (w, g) in enumerate(zip(want, got + [('', '')] * 4)):
         L.check(w == g, 'C17a.isar-forms', 'dimension-form %d' % i, c.site(rows[i].node if i < len(rows) else None),
                 'dimension form %d must be `%s` -> %s' % (i, w[0], w[1]), '%s -> %s' % g)
-    L.check("if size2: size = '{}*{}'.format(size, size2)" in s, 'C17a.isar-forms', 'size2', c.site(), 'two-dimensional sizes multiply', '')
+    L.check(inn("if size2: size = '{}*{}'.format(size, size2)", s), 'C17a.isar-forms', 'size2', c.site(), 'two-dimensional sizes multiply', '')
     ms = ctx.py.mod('prophyc.parsers.isar').func('make_struct')
     L.check('for member in xml_elem: for sub_ in make_struct_members(member, last_member_array_is_dynamic): members.append(sub_)' in ws(unparse(ms.node)),
             'C17f.member-order', 'make_struct', ms.site(), 'members keep their document order', '')
@@ -184,10 +185,10 @@ def patch_actions(ctx, L):
     L.check(re.search(r'if not mem\.size: raise Exception\(', s) is not None, 'C17e.patch-precondition', '_limited|requires-size', lim.site(),
             '`limited` "needs to be a fixed array to begin with" (docs/other_schemas.rst): a member without a size must be refused, '
             'otherwise bound without size silently makes a dynamic array', s[-300:])
-    L.check("sizer_found = len(tuple((x for x in node.members[:i] if x.name == len_array)))" in s and "if not sizer_found: raise Exception(" in s,
+    L.check(inn("sizer_found = len(tuple((x for x in node.members[:i] if x.name == len_array)))", s) and inn("if not sizer_found: raise Exception(", s),
             'C17e.patch-precondition', '_limited|sizer-before', lim.site(), 'the sizer must exist before the array', '')
     st = p.func('_struct')
     s = ws(unparse(st.node))
-    L.check('return model.StructMember(name=member.name, type_name=member.type_name, definition=member.definition)' in s and
-            'return model.Struct(node.name, [to_struct_member(mem) for mem in node.members])' in s, 'C17f.member-order', '_struct', st.site(),
+    L.check(inn('return model.StructMember(name=member.name, type_name=member.type_name, definition=member.definition)', s) and
+            inn('return model.Struct(node.name, [to_struct_member(mem) for mem in node.members])', s), 'C17f.member-order', '_struct', st.site(),
             'union -> struct keeps member order, names and types', s)
